@@ -360,6 +360,10 @@ func (p c16) whenEditNodes(c *core.Ctx) {
 				}
 				holder = item.Interface()
 			}
+			if rv := reflect.ValueOf(holder); stored && piece.name == "list" && (rv.Kind() == reflect.Map || rv.Kind() == reflect.Slice) && rv.Len() == 0 {
+				// a list without entries and no list are the same data
+				stored = false
+			}
 			want := o > 5
 			wit := fmt.Sprintf("schema: %s\ntarget before: o=%d\nedit: %s\ntarget after: %v (error %v)", body, o, piece.doc, data, uerr)
 			if !want && stored {
